@@ -83,6 +83,22 @@ def run(ctx):
         t = o.split(); peak = int(t[3]); est = int(t[10])
         if t[1] != '1': viol.append(dict(why='encoder scenario %d preset %d failed: %s' % (sc, p, t[1]), line=l[:4000000], stderr=''))
         elif est < peak: viol.append(dict(why='memory estimate %d of encoder scenario %d preset %d is below the measured peak %d' % (est, sc, p, peak), line=l[:4000000], stderr=''))
+    # ---- threaded encoder re-initialised with another thread count while output of the earlier use is still queued:
+    #      what is allocated during the second use must stay within the estimate for the second set of options
+    rel = []
+    for (t1, t2) in [(6, 1), (4, 2), (2, 4), (3, 3), (8, 2)]:
+        for pr in ((0, 1) if ctx.quick() else (0, 1, 3, 6)):
+            for bsz in (65536, 1 << 18):
+                dd = bytes(rng.getrandbits(8) for _ in range(1 << 14)) * ((bsz * (t1 + 2)) >> 14)
+                rel.append('reenc %d %d %d %d %s' % (t1, t2, pr, bsz, dd.hex()))
+    ro, rf = run_lines(drv, rel, shards=8)
+    for x in rf: viol.append(dict(why='re-initialised threaded encoder crashed under the counting allocator', line=(x[0] or '')[:300], stderr=x[1][-2000:]))
+    for l, o in zip(rel, ro):
+        if o is None: continue
+        n_re = l.split()[1:5]; t = o.split()
+        if t[0] != '0' or t[1] != '1': viol.append(dict(why='re-initialised threaded encoder (threads %s -> %s, preset %s, block size %s) failed: %s %s' % (*n_re, t[0], t[1]), line=l[:4000000], stderr=''))
+        elif int(t[2]) < int(t[4]): viol.append(dict(why='threaded encoder re-initialised from %s to %s threads (preset %s, block size %s) while output was queued: %s bytes live right after the re-initialisation, peak %s during the second use, lzma_stream_encoder_mt_memusage() for its options says %s' % (*n_re, t[3], t[4], t[2]), line=l[:4000000], stderr=''))
+        elif t[5] != '0' or t[6] != '0': viol.append(dict(why='re-initialised threaded encoder: %s bytes live after lzma_end, %s bad frees' % (t[5], t[6]), line=l[:300], stderr=''))
     # ---- threaded decoder: memlimit_threading / memlimit_stop
     tl, tm = [], []
     for _ in range(3 if ctx.quick() else 40):
@@ -166,7 +182,7 @@ def run(ctx):
             if not expect_fail and r.returncode != 0: viol.append(dict(why='xz %s failed: %s' % (' '.join(args[:-1]), r.stderr.decode()[:200]), line='', stderr=''))
     finally:
         shutil.rmtree(td, ignore_errors=True)
-    ctx.cov['evaluations'] = len(lines) + len(elines) + len(tl) + len(rl) + 4 + len(cases) + len(pl) * (10 if ctx.quick() else 60)
+    ctx.cov['evaluations'] = len(lines) + len(elines) + len(tl) + len(rl) + len(rel) + 4 + len(cases) + len(pl) * (10 if ctx.quick() else 60)
     ctx.cov['distinct_nontrivial'] = len(stat) + len(emeta) + len(set((m[0], m[1] >= m[2]) for m in tm))
     ctx.cov['rule'] = 'decoders (stream, alone, auto, lzip, index, file_info) x dictionary sizes x limits {1, need/2, need-70000, need-1, need, need+1}; encoder estimates vs measured peak for 6 entry points x presets; threaded decoder on multi-Block files with varying chains under memlimit_threading (1x..3x single-thread need) and memlimit_stop (need-1, need, need+1); xz with user limits; distinct = (limit >= need?, error seen?) etc.'
     ctx.cov['input_distribution'] = dict(limited_runs=len(lines), estimate_runs=len(elines), mt_runs=len(tl))
